@@ -14,6 +14,7 @@ From SV Require Import Fmt.VtfFrameSM Fmt.VtfFrameSMProofs Gen.VtfFrameSM_gen.
 From SV Require Import Bin.Struct Fmt.VtfContainer Fmt.VtfContainerProofs Gen.VtfContainer_gen.
 From SV Require Import Fmt.VtfSides Fmt.VtfSidesProofs.
 From SV Require Import Fmt.VtfWholeFile Fmt.VtfWholeFileProofs Fmt.VtfSheetProofs.
+From SV Require Import Fmt.VtfAccess Fmt.VtfAccessProofs Gen.VtfAccess_gen Fmt.VtfAccessGenProofs.
 Import ListNotations.
 
 (** ** Pixels *)
@@ -427,3 +428,78 @@ Example c15_save_events_inhabited : save_events_ok good_save_events = true.
 Proof. exact save_events_inhabited. Qed.
 Theorem c15_late_offsets_refuted : low_high_ok late_low_events = false /\ set_then_block res_key late_block_events = false.
 Proof. exact late_offsets_refuted. Qed.
+
+(** ** Round 4: every pixel access path has the same address map ("every pixel access is bounds-checked")
+
+    A frame's pixels are one flat array; [frame[x, y]], the buffer protocol ([memoryview(frame)], numpy), [to_PIL()],
+    [to_tkinter()], the wx converters, the codecs and [scale_down] each have their own idea of rows and columns.
+    translate/c15_access.py makes a census of EVERY use of [<frame>._data] in vtf.py (fail-closed) and regenerates, per
+    site, what the site uses as number of rows, of columns and of bytes per pixel ([gen_paths]).  [path_ok] - rows = the
+    frame's height, columns = its width, 4 bytes - is an instance obligation per site. *)
+Open Scope Z_scope.
+(** a path that passes accepts exactly [0,width) x [0,height) x [0,4) and addresses byte 4*(y*width + x) + c *)
+Theorem c15_path_address_map : forall p, path_ok p = true ->
+  forall w h f x y c,
+    path_accepts p w h f x y c = inside w h x y c /\ path_off p w h f x y c = canon_off w x y c.
+Proof. exact path_address_map. Qed.
+(** that byte lies inside the array, and two coordinates of the frame never share a byte *)
+Theorem c15_canon_in_buffer : forall w h x y c, inside w h x y c = true -> 0 <= canon_off w x y c < 4 * w * h.
+Proof. exact canon_in_buffer. Qed.
+Theorem c15_canon_injective : forall w h x y c x' y' c',
+  inside w h x y c = true -> inside w h x' y' c' = true ->
+  canon_off w x y c = canon_off w x' y' c' -> x = x' /\ y = y' /\ c = c'.
+Proof. exact canon_injective. Qed.
+(** an item path whose rejection test passes [bounds_exact] accepts EXACTLY the coordinates of the frame
+    (round 1 proved "only"; a test that also rejects coordinates inside the frame now fails an obligation) *)
+Theorem c15_item_accepts_exactly : forall ds, bounds_exact ds = true ->
+  forall x y w h, rejects ds x y w h = false <-> (0 <= x < w /\ 0 <= y < h).
+Proof. exact item_accepts_exactly. Qed.
+(** the whole census, instantiated with the generated objects: written through one path and read through any other gives
+    the value back at the same coordinate and leaves every other coordinate alone; a coordinate is accepted by one path
+    iff it is accepted by every other and by frame[x, y] / frame[x, y] = p; all address the bytes of pixel_off; inside the array *)
+Theorem c15_every_pixel_path_agrees :
+  forallb path_ok gen_paths = true -> bounds_exact getitem_reject = true -> bounds_exact setitem_reject = true ->
+  forall w h,
+    (forall p q, In p gen_paths -> In q gen_paths -> forall f g (b : buf) x y c v,
+        path_accepts p w h f x y c = path_accepts q w h g x y c
+        /\ (path_accepts p w h f x y c = true ->
+            bget (bset b (path_off p w h f x y c) v) (path_off q w h g x y c) = v
+            /\ forall x' y' c', path_accepts q w h g x' y' c' = true -> (x', y', c') <> (x, y, c) ->
+                 bget (bset b (path_off p w h f x y c) v) (path_off q w h g x' y' c') = bget b (path_off q w h g x' y' c')))
+    /\ (forall p, In p gen_paths -> forall f x y c, 0 <= c < 4 ->
+          (rejects getitem_reject x y w h = false <-> path_accepts p w h f x y c = true)
+          /\ (rejects setitem_reject x y w h = false <-> path_accepts p w h f x y c = true)
+          /\ path_off p w h f x y c = getitem_off x y w h + c
+          /\ path_off p w h f x y c = setitem_off x y w h + c
+          /\ (path_accepts p w h f x y c = true -> 0 <= path_off p w h f x y c < 4 * w * h)).
+Proof. exact gen_every_pixel_path_agrees. Qed.
+(** the shape of seeded fault c15_6 (rows and columns exchanged) on an 8x2 frame: the far corner is refused, a row below
+    the frame is accepted, an accepted coordinate addresses another pixel *)
+Theorem c15_transposed_path_refuted :
+  path_ok transposed_path = false
+  /\ inside 8 2 7 1 3 = true /\ path_accepts transposed_path 8 2 0 7 1 3 = false
+  /\ inside 8 2 0 2 0 = false /\ path_accepts transposed_path 8 2 0 0 2 0 = true
+  /\ path_accepts transposed_path 8 2 0 1 1 0 = true /\ path_off transposed_path 8 2 0 1 1 0 = canon_off 8 3 0 0
+  /\ canon_off 8 1 1 0 <> canon_off 8 3 0 0.
+Proof. exact transposed_path_refuted. Qed.
+Example c15_path_ok_inhabited : path_ok good_path = true.
+Proof. exact good_path_ok. Qed.
+Theorem c15_rejecting_inside_refuted :
+  bounds_exact [(BX, CLt, BZero); (BX, CGe, BWidth); (BY, CLt, BZero); (BY, CGe, BHeight); (BX, CGe, BHeight)] = false
+  /\ rejects [(BX, CLt, BZero); (BX, CGe, BWidth); (BY, CLt, BZero); (BY, CGe, BHeight); (BX, CGe, BHeight)] 7 1 8 2 = true.
+Proof. exact rejecting_inside_refuted. Qed.
+(** every allocation of a pixel array ([_BLANK_PIXEL * n], [colour * n]) makes 4 * width * height bytes *)
+Theorem c15_every_allocation_has_4wh_bytes :
+  forallb (fun a => alloc_ok 4 (snd a)) gen_allocs = true ->
+  forall a, In a gen_allocs -> forall w h f, prod_val (snd a) w h f = 4 * w * h.
+Proof. exact gen_every_allocation_has_4wh_bytes. Qed.
+Theorem c15_alloc_foreign_refuted : alloc_ok 1 [DW; DW] = false /\ prod_val [DW; DW] 8 2 0 <> 1 * 8 * 2.
+Proof. exact alloc_foreign_refuted. Qed.
+(** a whole pixel array is copied from another frame exactly when both have the same width and the same height *)
+Theorem c15_every_frame_copy_is_between_equal_sizes :
+  forallb (fun g => copy_guard_ok (snd g)) gen_copy_guards = true ->
+  forall g, In g gen_copy_guards -> forall w h w' h', guard_rejects (snd g) w h w' h' = false <-> (w = w' /\ h = h').
+Proof. exact gen_every_frame_copy_is_between_equal_sizes. Qed.
+Theorem c15_copy_guard_width_only_refuted :
+  copy_guard_ok [(GSelfW, GSrcW)] = false /\ guard_rejects [(GSelfW, GSrcW)] 8 2 8 4 = false.
+Proof. exact copy_guard_width_only_refuted. Qed.
